@@ -3,7 +3,10 @@
 //
 // program text:  "<pos>:<script> | <pos>:<script> ... [ || <pos>:<script> | ... ]"
 //   pos    = probe start residue (hash(thread id) % capacity) forced through the fake thread id
-//   script = blank separated ops: G (GetThreadID + checks), H (GetHeartBeat), P (scheduling point)
+//   script = blank separated ops: G (GetThreadID + checks), H (GetHeartBeat), P (scheduling point),
+//            B (barrier: waits until every thread of its wave has arrived; waiting costs no preemption),
+//            S (stay alive until every other thread has finished or waits: a long-lived thread at no preemption cost),
+//            K<t> (an observer pins the heartbeat handed to thread t with weak_ptr::lock()), U (drops the pin)
 //   threads after "||" form a second wave that starts when every first-wave thread has exited.
 #include "dbgroup/thread/id_manager.hpp"
 #include "vshim_off.hpp"
@@ -82,6 +85,12 @@ struct Ghost {
   int id_of[kMaxT];            // id obtained by thread t, -1 none
   bool body_done[kMaxT];
   HbRec hbs[kMaxT];            // heartbeat handed to thread t (one per thread)
+  vshim::SharedPtr<size_t> pins[kMaxT];  // observer thread t's pinned heartbeat (op K)
+  vshim::Atomic<uint64_t> barrier{0};  // op B
+  vshim::Atomic<uint64_t> release{0};  // op S: advanced by the quiescence hook
+  int staying = 0;                     // threads inside op S
+  uint32_t waited_in_g[kMaxT];         // times thread t was put to wait inside GetThreadID / GetHeartBeat
+  bool user_pinned[kMaxT];     // the heartbeat of thread t was pinned by a client: its expiry is the client's business
   int hb_id[kMaxT];            // id the heartbeat of thread t belongs to
   char results[kMaxT][24];
   long dummy = 0;
@@ -125,8 +134,10 @@ Body(int tid)
     vs::Boundary(h);
     if (op == "G") {
       const bool first = GH->id_of[tid] < 0;
+      const uint32_t b0 = vs::Stat(tid).blocked;
       const size_t id = IDManager::GetThreadID();
       vs::NoSchedule ns;
+      GH->waited_in_g[tid] += vs::Stat(tid).blocked - b0;
       if (id >= static_cast<size_t>(kCap)) {
         vs::Violate("C05", "ID-OUT-OF-RANGE", Fmt("T%d obtained id %zu, capacity is %d", tid, id, kCap));
       } else if (first) {
@@ -137,7 +148,7 @@ Body(int tid)
         }
         // C15: all heartbeats handed out earlier for this id must be expired by now
         for (int u = 0; u < static_cast<int>(PROG.th.size()); ++u) {
-          if (u == tid || !GH->hbs[u].used || GH->hb_id[u] != static_cast<int>(id)) continue;
+          if (u == tid || !GH->hbs[u].used || GH->hb_id[u] != static_cast<int>(id) || GH->user_pinned[u]) continue;
           if (!GH->hbs[u].hb.RawExpired()) {
             vs::Violate("C15", "HEARTBEAT-ALIVE-AT-REUSE",
                         Fmt("id %zu was given to T%d while the heartbeat handed out to its earlier owner T%d is not expired", id, tid, u));
@@ -151,8 +162,10 @@ Body(int tid)
       }
       CheckLiveHeartbeats(tid, "at GetThreadID return");
     } else if (op == "H") {
+      const uint32_t b0 = vs::Stat(tid).blocked;
       HB hb = IDManager::GetHeartBeat();
       vs::NoSchedule ns;
+      GH->waited_in_g[tid] += vs::Stat(tid).blocked - b0;
       if (hb.RawExpired()) vs::Violate("C15", "HEARTBEAT-EXPIRED-EARLY", Fmt("T%d received an expired heartbeat", tid));
       GH->hbs[tid].hb = hb;
       GH->hbs[tid].owner = tid;
@@ -166,7 +179,7 @@ Body(int tid)
             vs::Violate("C05", "ID-DUPLICATE", Fmt("T%d obtained id %zu (via GetHeartBeat) while T%d holds it", tid, id, other));
           }
           for (int u = 0; u < static_cast<int>(PROG.th.size()); ++u) {
-            if (u == tid || !GH->hbs[u].used || GH->hb_id[u] != static_cast<int>(id)) continue;
+            if (u == tid || !GH->hbs[u].used || GH->hb_id[u] != static_cast<int>(id) || GH->user_pinned[u]) continue;
             if (!GH->hbs[u].hb.RawExpired()) {
               vs::Violate("C15", "HEARTBEAT-ALIVE-AT-REUSE",
                           Fmt("id %zu was given to T%d (via GetHeartBeat) while the heartbeat of its earlier owner T%d is not expired", id, tid, u));
@@ -182,6 +195,41 @@ Body(int tid)
       vs::PlainPoint(&GH->dummy, false);
       vs::NoSchedule ns;
       CheckLiveHeartbeats(tid, "while running");
+    } else if (op == "B") {
+      const int lo = (PROG.wave2_from >= 0 && tid >= PROG.wave2_from) ? PROG.wave2_from : 0;
+      const int hi = (PROG.wave2_from >= 0 && tid < PROG.wave2_from) ? PROG.wave2_from : static_cast<int>(PROG.th.size());
+      uint64_t want = 0;
+      for (int u = lo; u < hi; ++u)
+        for (auto &o : PROG.th[u].ops) want += (o == "B");
+      if (lo > 0)
+        for (int u = 0; u < lo; ++u)
+          for (auto &o : PROG.th[u].ops) want += (o == "B");
+      GH->barrier.fetch_add(1, std::memory_order_seq_cst);
+      while (GH->barrier.load(std::memory_order_seq_cst) < want) vshim::Pause();
+    } else if (op == "S") {
+      const uint64_t my = GH->release.load(std::memory_order_seq_cst);
+      {
+        vs::NoSchedule ns;
+        ++GH->staying;
+      }
+      while (GH->release.load(std::memory_order_seq_cst) == my) vshim::Pause();
+      vs::NoSchedule ns;
+      --GH->staying;
+      CheckLiveHeartbeats(tid, "after a long stay");
+    } else if (op[0] == 'K') {
+      // a client pins somebody's heartbeat (weak_ptr::lock is part of the type the library hands out)
+      const int u = atoi(op.c_str() + 1);
+      vs::PlainPoint(&GH->dummy, false);
+      if (u >= 0 && u < static_cast<int>(PROG.th.size()) && GH->hbs[u].used) {
+        auto sp = GH->hbs[u].hb.lock();
+        vs::NoSchedule ns;
+        if (sp) {
+          GH->user_pinned[u] = true;
+          GH->pins[tid] = std::move(sp);
+        }
+      }
+    } else if (op == "U") {
+      GH->pins[tid].reset();
     }
     ++step;
   }
@@ -189,14 +237,14 @@ Body(int tid)
   vs::NoSchedule ns;
   {
     const int first_wave = PROG.wave2_from >= 0 ? PROG.wave2_from : static_cast<int>(PROG.th.size());
-    if (tid < first_wave && first_wave <= kCap && vs::Stat(tid).blocked != 0) {
+    if (tid < first_wave && first_wave <= kCap && GH->waited_in_g[tid] != 0) {
       vs::Violate("C14", "WAIT-WITH-FREE-ID",
                   Fmt("T%d had to wait in GetThreadID although only %d thread(s) compete for %d IDs (a free ID always exists)", tid, first_wave, kCap));
     }
   }
-  if (tid >= PROG.wave2_from && PROG.wave2_from >= 0) {
+  if (tid >= PROG.wave2_from && PROG.wave2_from >= 0 && static_cast<int>(PROG.th.size()) - PROG.wave2_from <= kCap) {
     // second wave: every id must have been free again, so nobody may have had to wait
-    if (vs::Stat(tid).blocked != 0) {
+    if (GH->waited_in_g[tid] != 0) {
       vs::Violate("C14", "ID-NOT-RETURNED",
                   Fmt("after all earlier threads exited, T%d of a fresh wave of %d threads had to wait for an id", tid, kCap));
     }
@@ -214,12 +262,17 @@ Setup()
   for (auto &b : GH->body_done) b = false;
   for (auto &i : GH->hb_id) i = -1;
   for (auto &r : GH->results) r[0] = 0;
+  for (auto &b : GH->user_pinned) b = false;
+  for (auto &w : GH->waited_in_g) w = 0;
 }
 
 void
 Teardown()
 {
   // after join every heartbeat is expired
+  for (int u = 0; u < static_cast<int>(PROG.th.size()); ++u) {
+    if (GH->pins[u]) GH->pins[u].reset();
+  }
   for (int u = 0; u < static_cast<int>(PROG.th.size()); ++u) {
     if (GH->hbs[u].used && !GH->hbs[u].hb.RawExpired()) {
       vs::Violate("C15", "HEARTBEAT-ALIVE-AFTER-EXIT", Fmt("the heartbeat of T%d is not expired although the thread has exited", u));
@@ -237,6 +290,7 @@ Digest()
   for (int t = 0; t < static_cast<int>(PROG.th.size()); ++t) {
     h = vs::Mix(h, static_cast<uint64_t>(GH->id_of[t] + 1) * 4 + (GH->body_done[t] ? 2 : 0) + (GH->hbs[t].used ? 1 : 0));
     if (GH->hbs[t].used) h = vs::Mix(h, GH->hbs[t].hb.RawExpired() ? 5 : 6);
+    h = vs::Mix(h, (GH->pins[t] ? 2 : 0) + (GH->user_pinned[t] ? 1 : 0) + 4 * static_cast<uint64_t>(GH->waited_in_g[t] != 0));
   }
   return h;
 }
@@ -270,6 +324,11 @@ MakeScenario()
   s.nthreads = static_cast<int>(PROG.th.size());
   s.gated_from = PROG.wave2_from;
   s.deadlock_props = "C14";  // a GetThreadID call that never returns
+  s.on_quiescent = []() -> bool {
+    if (!GH || GH->staying <= 0) return false;
+    GH->release.RawStore(GH->release.Raw() + 1);
+    return true;
+  };
   s.setup = Setup;
   s.body = Body;
   s.teardown = Teardown;
@@ -350,6 +409,36 @@ Family(const std::string &f)
   } else if (f == "reuse") {  // first wave then a fresh wave of `capacity` threads
     gen(1, std::min(kCap + 1, 3), "G H P G", true);
     if (kCap <= 2) gen(kCap + 2, kCap + 2, "G H G", true);
+  } else if (f == "churn") {
+    // every ID has been used and given back (a free-list or a high-water mark is warm), then an oversubscribed
+    // wave in which threads start, stay and exit concurrently
+    {
+      std::vector<int> w1(static_cast<size_t>(kCap), 0), w2(static_cast<size_t>(kCap + 2), 0);
+      out.push_back(wave(w1, "G B") + " || " + wave(w2, "G P"));
+      if (kCap >= 2) {
+        for (int i = 0; i < kCap; ++i) w1[static_cast<size_t>(i)] = i;
+        out.push_back(wave(w1, "G B") + " || " + wave(w2, "G P"));
+      }
+    }
+  } else if (f == "stay") {
+    // warm-up wave as in `churn`; then long-lived holders (S) next to threads that come and go
+    std::vector<int> w1(static_cast<size_t>(kCap), 0);
+    for (int stayers = 1; stayers <= std::min(kCap, 2); ++stayers) {
+      for (int goers = 2; goers <= 3; ++goers) {
+        if (stayers + goers > 4) continue;
+        std::string w2;
+        for (int i = 0; i < stayers; ++i) w2 += std::string(w2.empty() ? "" : " | ") + "0:G S";
+        for (int i = 0; i < goers; ++i) w2 += " | 0:G";
+        out.push_back(wave(w1, "G B") + " || " + w2);
+      }
+    }
+  } else if (f == "pinned") {
+    // a client thread that never asks for an ID pins the heartbeat of an exiting thread for a while
+    for (int pos = 0; pos < kCap; ++pos) {
+      std::vector<int> w2(static_cast<size_t>(kCap), pos);
+      out.push_back("0:G H P | 0:P K0 P U || " + wave(w2, "G H G"));
+      out.push_back("0:H P | 0:P K0 P || " + wave(w2, "G H G"));
+    }
   } else if (f == "big") {
     gen(kCap + 1, kCap + 1, "G H P G", true);
   }
